@@ -5,6 +5,7 @@ import Lmd.Render
 import Lmd.Print
 import Lmd.Frame
 import Lmd.Sync
+import Lmd.Cluster
 
 open Lean (Json)
 open Lmd
@@ -334,6 +335,13 @@ def step (st : State) (j : Json) : State × Option Json :=
   | "frame" =>
     let hdr := fixed16Header (jNat j "code") (jNat j "size")
     (st, some (Json.mkObj [("id", .num ⟨(jNat j "id" : Int), 0⟩), ("op", .str "frame"), ("header", .str hdr)]))
+  | "redistribute" =>
+    let online := (jArr j "online").map (fun b => match b with | .bool x => x | _ => false)
+    let res := redistribute online (jStrs j "backends")
+    let qs := quotas online (jStrs j "backends").length
+    (st, some (Json.mkObj [("id", .num ⟨(jNat j "id" : Int), 0⟩), ("op", .str "redistribute"),
+      ("assigned", .arr (res.map (fun l => Json.arr (l.map Json.str).toArray)).toArray),
+      ("quotas", .arr (qs.map (fun (q : Nat) => Json.num ⟨(q : Int), 0⟩)).toArray)]))
   | "plan" =>
     let reqs := (jArr j "reqs").map fun r => ({ parses := jBool r "parses", keepAlive := jBool r "keepalive" } : WireReq)
     let acts := (sessionPlan 0 reqs).map fun a =>
